@@ -93,7 +93,9 @@ type LabCase struct {
 	PyImportErr  string
 }
 
-func (c *LabCase) generated() bool { return c.Defs != nil && len(c.Unsupported) == 0 && c.GenErr == "" }
+func (c *LabCase) generated() bool {
+	return c.SchemaText != "" && len(c.Unsupported) == 0 && c.GenErr == ""
+}
 
 func (c *LabCase) EmittedJSONSchema() []byte { return c.Files["jsonschema/"+c.ID+".jsonschema.json"] }
 func (c *LabCase) EmittedOpenAPI() []byte    { return c.Files["openapi/"+c.ID+".openapi.json"] }
@@ -218,10 +220,36 @@ func (l *Lab) AddCaseWith(defs *Defs, format string, flags GoFlags, builders, co
 	}
 	c.Defs = d
 	c.SchemaText, c.RefSchemaText = ro.Text, ro.RefText
-	path, err := writeSchemaFile(filepath.Join(l.Dir, "schemas"), format, c.ID, ro.Text)
+	l.generate(c)
+	return c
+}
+
+// AddCaseText adds a case from hand-written schema text (any construct, also outside the
+// grammar). The text must declare cog package / CUE package "%PKG%" where the format needs one
+// (CUE: `package %PKG%`); every occurrence of %PKG% is replaced by the case ID. defs may be nil;
+// when given it is only used by callers for document generation (it is NOT rendered).
+func (l *Lab) AddCaseText(format, text string, defs *Defs) *LabCase {
+	t0 := time.Now()
+	defer l.timed("generate", t0)
+	idx := len(l.Cases)
+	c := &LabCase{Idx: idx, ID: fmt.Sprintf("c%d%s", idx, labFormatSuffix[format]), Format: format, Orig: defs, Defs: defs,
+		GoFlags: l.Opts.GoFlags, Builders: l.Opts.Builders || l.Opts.Converters, Converters: l.Opts.Converters}
+	l.Cases = append(l.Cases, c)
+	if labFormatSuffix[format] == "" {
+		c.Unsupported = []string{"format:" + format}
+		return c
+	}
+	c.SchemaText = strings.ReplaceAll(text, "%PKG%", c.ID)
+	l.generate(c)
+	return c
+}
+
+func (l *Lab) generate(c *LabCase) {
+	flags := c.GoFlags
+	path, err := writeSchemaFile(filepath.Join(l.Dir, "schemas"), c.Format, c.ID, c.SchemaText)
 	if err != nil {
 		c.GenErr = "lab: " + err.Error()
-		return c
+		return
 	}
 	c.SchemaPath = path
 	lr := l.labRun(c)
@@ -248,7 +276,6 @@ func (l *Lab) AddCaseWith(defs *Defs, format string, flags GoFlags, builders, co
 		}
 		c.PyObjects = pyObjectsOf(ir, c.ID)
 	}
-	return c
 }
 
 func (l *Lab) labRun(c *LabCase) labRun {
